@@ -46,7 +46,10 @@ def step_body(kind):
 
 def begin_body(with_settings):
     d = {"scenario_managers": [SM], "scenarios": ["base"], "equations": EQS}
-    if with_settings:
+    if with_settings == "rs":
+        # run specs among the begin-session settings: the session steps on the finer grid
+        d["settings"] = {SM: {"base": {"constants": {"k": 3.0}, "runspecs": {"dt": 0.25}}}}
+    elif with_settings:
         d["settings"] = {SM: {"base": {"constants": {"k": 3.0}}}}
     return d
 
@@ -276,6 +279,12 @@ def jobs(tier):
                             # (the directory listed the other way round: the damaged file comes first / last)
                             out.append((st, dt, list(kinds), True, compress, k, tr, True, "main", "desc"))
                             out.append((st, dt, list(kinds), True, compress, k, tr, True, "other", "desc"))
+    # run specs among the begin-session settings
+    for (st, dt) in ((0, 1), (0.5, 0.5)):
+        for kinds in (["nobody", "nobody"], ["v1", "nobody", "v2p"], ["rs2e", "v1"]):
+            for compress in (False, True):
+                for k in range(1, len(kinds) + 1):
+                    out.append((st, dt, list(kinds), "rs", compress, k, None, False))
     # twins: two instances with identical sessions stepped in turns; a bystander instance without a session
     for (st, dt) in specs[:2]:
         for steps in (["nobody", "nobody", "nobody"], ["v1", "nobody", "v2p"], ["empty", "v1", "rs2e"]):
